@@ -37,7 +37,7 @@ type KV struct {
 
 // Call is one writer API call.
 type Call struct {
-	Op      string `json:"op"` // header schema channel message attachment metadata close
+	Op      string `json:"op"` // header schema channel message attachment metadata close | addschema addchannel chunk
 	ID      uint16 `json:"id,omitempty"`
 	Schema  uint16 `json:"schema,omitempty"`
 	Ch      uint16 `json:"ch,omitempty"`
@@ -56,6 +56,13 @@ type Call struct {
 	MD      []KV   `json:"md,omitempty"`
 	// attachment source behaviour (C14): "" exact, "short:<n>", "long:<n>", "fail:<n>"
 	Src string `json:"src,omitempty"`
+	// op "chunk" (WriteChunkWithIndexes with a chunk the caller assembled): the schema / channel / message records
+	// placed in it, its compression ("", "zstd", "lz4") and how the message indexes are handed over:
+	// "exact" (one per channel, order of first appearance), "rev" (exact, reversed order), "extra" (exact plus
+	// empty index objects), "none" (nil)
+	Inner []Call `json:"inner,omitempty"`
+	CComp string `json:"ccomp,omitempty"`
+	Idx   string `json:"idx,omitempty"`
 }
 
 // Workload is a configuration plus a call sequence.
